@@ -2,7 +2,7 @@
 (* TV form of C15.  One trace = one credential case executed on the real code:                                   *)
 (*   Case, then the steps of Order(class) - Create, DcLayout, DcFields, DcKeys, SpsdkParse, CheckDcSignature,    *)
 (*   CheckRotHash, Dac, Respond, DarLayout, DarFields, CheckResponseSignature [, Deliver] -,                     *)
-(*   then (Attempt | Tamper)*, Done.                                                                             *)
+(*   then (Attempt | History | Tamper)*, Done.                                                                   *)
 (* The harness drives SPSDK (the host) and the device twin (independent parser / verifier); every number it logs *)
 (* is recomputed here from the case parameters, every crypto fact must be TRUE, every delivery attempt must get  *)
 (* the verdict of the acceptance automaton of DatTerms.                                                          *)
@@ -35,6 +35,8 @@ Skippable == {"DcFields", "DcKeys", "SpsdkParse", "CheckDcSignature", "CheckRotH
 TInit == /\ tid \in 1..Len(Traces) /\ l = 1 /\ pos = Start /\ cs = [cls |-> "none"] /\ inp = [none |-> 0] /\ TLCSet(tid, 1)
 
 TCase == /\ l <= Len(T) /\ E.e = "Case" /\ pos = Start /\ Len(E.ver) = 2 /\ ValidCase(E.cls, <<E.ver[1], E.ver[2]>>, E.nkeys, E.used)
+         /\ ValidShape(<<E.ver[1], E.ver[2]>>, E.nkeys, E.lz, E.coord)
+         /\ ShapesFit(<<E.ver[1], E.ver[2]>>, E.nkeys, E.used, E.lz, E.coord, E.shapes)      \* the keys of the run have the shape the case asks for
          /\ {E.skip[i] : i \in 1..Len(E.skip)} \subseteq Skippable
          /\ cs' = E /\ UNCHANGED <<inp, tid>> /\ l' = l + 1 /\ pos' = 0
 \* a step listed in Case.skip may be absent
@@ -67,10 +69,11 @@ TSpsdkParse == /\ Is("SpsdkParse") /\ E.ok /\ FieldsEqual(E.out) /\ (E.eq \/ C =
 TCheckDcSignature == /\ Is("CheckDcSignature")
                      /\ E.from = 0 /\ E.to = DcSigAt(C, V, N) /\ E.sigAt = DcSigAt(C, V, N) /\ E.sigLen = SigLen(V) /\ E.ok
                      /\ Keep /\ Adv
-\* RoT hash: from the credential bytes = reference construction from the keys = what the DC object reports = image tools
+\* RoT hash: from the credential bytes = reference construction from the keys (fixed-width coordinates, hashlib) = what the DC object
+\* reports = image tools (tools: RoT calculator of the family; tools2: certificate block v2.1 built over the same keys)
 \* (ele2: the SRK table travels in the response; the credential object has no RoT hash: dc = "n/a")
 TCheckRotHash == /\ Is("CheckRotHash")
-                 /\ (RotHashDefined(V) \/ C = "ele2" => /\ E.fromBytes = E.ref /\ E.tools \in {"n/a", E.ref}
+                 /\ (RotHashDefined(V) \/ C = "ele2" => /\ E.fromBytes = E.ref /\ E.tools \in {"n/a", E.ref} /\ E.tools2 \in {"n/a", E.ref}
                                                         /\ (IF C = "ele2" THEN E.dc = "n/a" ELSE E.dc = E.ref))
                  /\ Keep /\ Adv
 \* the challenge of the device (built by the twin) is read correctly by the host
@@ -99,6 +102,18 @@ TAttempt == /\ l <= Len(T) /\ E.e = "Attempt" /\ Open /\ C # "ele2" /\ E.a.binds
             /\ E.a.c0 \in Creds /\ E.a.c \in Creds /\ {E.a.u0, E.a.u, E.a.d} \subseteq Devices /\ {E.a.ch0, E.a.ch} \subseteq Chals /\ E.a.b \in Beacons
             /\ E.verdict = AttemptVerdict(E.a, cs.wild)
             /\ Keep /\ l' = l + 1 /\ UNCHANGED <<tid, pos>>
+\* a history of the honest host: whatever it re-uses from its earlier answers (configuration object, credential object, response
+\* object), the answer of step k embeds the credential and the beacon of step k and gets, from every device and for every challenge
+\* a device may have outstanding, the verdict of the acceptance automaton for Resp(cA, b_k, d_k, ch_k) - i.e. it is bound to ITS
+\* challenge (and, ECC, device).  A step the host refuses builds nothing (ok = FALSE).
+HistDevices == IF C = "ele2" THEN {"d1"} ELSE Devices
+THistory == /\ l <= Len(T) /\ E.e = "History" /\ Open
+            /\ ValidHistory(E.h, C = "ele2") /\ Len(E.obs) = Len(E.h)
+            /\ \A k \in 1..Len(E.h) : E.obs[k].ok =>
+                  /\ E.obs[k].dcEq /\ E.obs[k].bIs = E.h[k].b
+                  /\ Len(E.obs[k].v) = Cardinality(HistDevices) * Cardinality(Chals)
+                  /\ {E.obs[k].v[i] : i \in 1..Len(E.obs[k].v)} = StepVerdicts(BindsUuid(V), cs.wild, E.h[k], HistDevices)
+            /\ Keep /\ l' = l + 1 /\ UNCHANGED <<tid, pos>>
 \* single-bit corruption of the honest response: never accepted, and stopped by the check that covers the field
 DcNames == {DcTable(C, V, N)[i].n : i \in 1..Len(DcTable(C, V, N))}
 DarNames == {DarTable(C, V, N)[i].n : i \in 1..Len(DarTable(C, V, N))} \ {"dc", "pad"}
@@ -115,7 +130,7 @@ TTamper == /\ l <= Len(T) /\ E.e = "Tamper" /\ Open /\ E.verdict \in TamperAllow
 TDone == /\ l <= Len(T) /\ E.e = "Done" /\ (Open \/ pos = Refused) /\ Keep /\ l' = l + 1 /\ pos' = Finished /\ UNCHANGED tid
 TNext == \/ TCase \/ TSkip \/ TCreateRefused \/ TCreate \/ TDcLayout \/ TDcFields \/ TDcKeys \/ TSpsdkParse \/ TCheckDcSignature
          \/ TCheckRotHash \/ TDac \/ TRespondRefused \/ TRespond \/ TDarLayout \/ TDarFields \/ TCheckResponseSignature \/ TDeliver
-         \/ TAttempt \/ TTamper \/ TDone
+         \/ TAttempt \/ THistory \/ TTamper \/ TDone
 Constr == IF TLCGet(tid) < l THEN TLCSet(tid, l) ELSE TRUE
 Post == \A i \in 1..Len(Traces) :
           \/ TLCGet(i) - 1 = Len(Traces[i].ev)
